@@ -227,7 +227,16 @@ def run_emu_case(c):
     chk, build = _CTX["chk"], _CTX["plain"]
     wd = os.path.join(chk.scratch, "e%d" % c["i"])
     try:
-        desc = tracegen.simple_system(nthreads=len(c["requires"]), ncpus=1)
+        # the streams that carry the requirements are threads of one process, or one
+        # process each, or one loom each (rotating)
+        n = len(c["requires"])
+        layout = ["threads", "procs", "looms"][c["i"] % 3] if n > 1 else "threads"
+        if layout == "threads":
+            desc = tracegen.simple_system(nthreads=n, ncpus=1)
+        elif layout == "procs":
+            desc = tracegen.simple_system(nthreads=1, ncpus=1, nprocs=n)
+        else:
+            desc = tracegen.simple_system(nthreads=1, ncpus=1, nlooms=n)
         keys = tracegen.all_keys(desc)
         hist = []
         t = 100
